@@ -714,4 +714,89 @@ theorem scopeClosed_iff (t : List Desc) : scopeClosed t = true ↔ ∃ p c1, com
   | error e => simp
   | ok x => exact ⟨fun _ => ⟨x.1, x.2, rfl⟩, fun _ => rfl⟩
 
+/-! ### data-section level -/
+
+theorem obs_cases {x y : CM St} (h : obs x = obs y) :
+    (∃ e, x = .error e ∧ y = .error e) ∨
+    (∃ a b, x = .ok a ∧ y = .ok b ∧ a.bits = b.bits ∧ a.descs = b.descs ∧ a.vals = b.vals ∧ a.links = b.links) := by
+  cases x with
+  | error e =>
+    cases y with
+    | error e' => left; simp only [obs] at h; cases h; exact ⟨e, rfl, rfl⟩
+    | ok b => simp [obs] at h
+  | ok a =>
+    cases y with
+    | error e' => simp [obs] at h
+    | ok b =>
+      right
+      simp only [obs, eraseRegs, Except.ok.injEq, St.mk.injEq] at h
+      exact ⟨a, b, rfl, rfl, h.2.1, h.2.2.1, h.2.2.2.1, h.2.2.2.2.2.1⟩
+
+/-- what the data-section drivers need: the two runs from a fresh state agree on everything observable -/
+def ProgFor (t : List Desc) (prog : List Stmt) : Prop :=
+  ∀ (P : Prims), Frame P → ∀ s : St, s.regs = {} → obs (exec P prog s) = obs (walkList P t s)
+
+theorem decodeSubsetC_eq {t : List Desc} {prog : List Stmt} (h : ProgFor t prog) (bits : Bits) :
+    decodeSubsetC prog bits = decodeSubset t bits := by
+  unfold decodeSubsetC decodeSubset
+  rcases obs_cases (h decPrimsU frame_decPrimsU { bits := bits, vals := [[]] } rfl) with ⟨e, h1, h2⟩ | ⟨a, b, h1, h2, h3, h4, h5, h6⟩
+  · rw [h1, h2]
+  · rw [h1, h2]; simp only [h3, h4, h5, h6]
+
+theorem decodeSubsetsC_eq {t : List Desc} {prog : List Stmt} (h : ProgFor t prog) (n : Nat) (bits : Bits) :
+    decodeSubsetsC prog n bits = decodeSubsets t n bits := by
+  induction n generalizing bits with
+  | zero => rfl
+  | succ n ih =>
+    simp only [decodeSubsetsC, decodeSubsets, decodeSubsetC_eq h]
+    cases decodeSubset t bits with
+    | error e => rfl
+    | ok x =>
+      simp only [ih]
+      rcases decodeSubsets t n x.snd with _ | ⟨a, b⟩ <;> rfl
+
+theorem decodeCompressedC_eq {t : List Desc} {prog : List Stmt} (h : ProgFor t prog) (n : Nat) (bits : Bits) :
+    decodeCompressedC prog n bits = decodeCompressed t n bits := by
+  unfold decodeCompressedC decodeCompressed
+  rcases obs_cases (h decPrimsC frame_decPrimsC { bits := bits, vals := List.replicate n [] } rfl) with ⟨e, h1, h2⟩ | ⟨a, b, h1, h2, h3, h4, h5, h6⟩
+  · rw [h1, h2]
+  · rw [h1, h2]; simp only [St.outs, h3, h4, h5, h6]
+
+theorem decodeDataC_eq {t : List Desc} {prog : List Stmt} (h : ProgFor t prog) (compressed : Bool) (n : Nat) (bits : Bits) :
+    decodeDataC prog compressed n bits = decodeData t compressed n bits := by
+  unfold decodeDataC decodeData
+  rw [decodeCompressedC_eq h, decodeSubsetsC_eq h]
+
+theorem encodeSubsetC_eq {t : List Desc} {prog : List Stmt} (h : ProgFor t prog) (vals : List Val) (pre : Bits) :
+    encodeSubsetC prog vals pre = encodeSubset t vals pre := by
+  unfold encodeSubsetC encodeSubset
+  rcases obs_cases (h encPrimsU frame_encPrimsU { bits := pre, vals := [vals] } rfl) with ⟨e, h1, h2⟩ | ⟨a, b, h1, h2, h3, h4, h5, h6⟩
+  · rw [h1, h2]
+  · rw [h1, h2]; simp only [h3, h4, h6]
+
+theorem encodeSubsetsC_eq {t : List Desc} {prog : List Stmt} (h : ProgFor t prog) (vs : List (List Val)) (pre : Bits) :
+    encodeSubsetsC prog vs pre = encodeSubsets t vs pre := by
+  induction vs generalizing pre with
+  | nil => rfl
+  | cons v vs ih =>
+    simp only [encodeSubsetsC, encodeSubsets, encodeSubsetC_eq h]
+    cases encodeSubset t v pre with
+    | error e => rfl
+    | ok x =>
+      simp only [ih]
+      rcases encodeSubsets t vs x.snd with _ | ⟨a, b⟩ <;> rfl
+
+theorem encodeCompressedC_eq {t : List Desc} {prog : List Stmt} (h : ProgFor t prog) (valss : List (List Val)) :
+    encodeCompressedC prog valss = encodeCompressed t valss := by
+  unfold encodeCompressedC encodeCompressed
+  rcases obs_cases (h encPrimsC frame_encPrimsC { bits := [], vals := valss } rfl) with ⟨e, h1, h2⟩ | ⟨a, b, h1, h2, h3, h4, h5, h6⟩
+  · rw [h1, h2]
+  · rw [h1, h2]; simp only [h3, h4, h6]
+
+theorem encodeDataC_eq {t : List Desc} {prog : List Stmt} (h : ProgFor t prog) (compressed : Bool) (valss : List (List Val)) :
+    encodeDataC prog compressed valss = encodeData t compressed valss := by
+  unfold encodeDataC encodeData
+  rw [encodeCompressedC_eq h, encodeSubsetsC_eq h]
+  rcases (if compressed = true then encodeCompressed t valss else encodeSubsets t valss []) with _ | ⟨a, b⟩ <;> rfl
+
 end Bufr.C08W
